@@ -43,7 +43,8 @@ Qed.
     (fun x : ic_st O * st R => ic_inv (fst x) /\ inv (snd x) /\ Forall (valid (snd x)) (ic_abs (fst x)))
     (fun (x : ic_st O * st R) (i : nat * nat) => fst i <= snd i <= length (ic_abs (fst x)))
     (fun (x : ic_st O * st R) (vs : list (val R)) => Forall (dom (snd x)) vs)
-    (fun x y : ic_st O * st R => ic_abs (fst x) = ic_abs (fst y) /\ sim (snd x) (snd y)).
+    (fun x y : ic_st O * st R => ic_abs (fst x) = ic_abs (fst y) /\ sim (snd x) (snd y))
+    (fun l : list (ic_st O * st R) => mergeable (map snd l)).
 
 #[export] Instance slice_ok R (O : IC (idx R)) `{RegionOK R} `{ICOk _ O} : RegionOK (slice R O).
 Proof.
@@ -89,8 +90,8 @@ Proof.
   - intros [so sr] (Hio & Hi & Hall). cbn [fst snd inv sim slice_spec clear slice dflt] in *. split.
     + split; [apply inv_clear|]. split; [apply clear_ok; assumption|]. rewrite abs_clear. constructor.
     + rewrite abs_clear, abs_default. split; [reflexivity|apply clear_ok; assumption].
-  - intros l Hl. cbn. split; [apply inv_default|]. split.
-    + apply merge_inv. rewrite Forall_forall in *. intros y Hy. apply in_map_iff in Hy.
+  - intros l Hl Hm. cbn. split; [apply inv_default|]. split.
+    + apply merge_inv; [|exact Hm]. rewrite Forall_forall in *. intros y Hy. apply in_map_iff in Hy.
       destruct Hy as (x & <- & Hx). apply (Hl x Hx).
     + rewrite abs_default. constructor.
   - intros [so sr]. cbn. split; [reflexivity|apply sim_refl].
